@@ -266,6 +266,7 @@ class Table:
     indexes: Dict[str, List[str]] = field(default_factory=dict)
     fks: List[Dict[str, Any]] = field(default_factory=list)
     source: List[str] = field(default_factory=list)   # migrations that touched it
+    _fk_counter: int = 0
 
     def col(self, name: str) -> Optional[Column]:
         ln = name.lower()
@@ -553,7 +554,7 @@ def _skip_fk_actions(p: _P) -> Dict[str, str]:
     return acts
 
 
-def _parse_fk(p: _P, t: Table):
+def _parse_fk(p: _P, t: Table, cname=None):
     """after FOREIGN KEY"""
     if p.peek()[0] in ('id', 'bq') and p.peek() != ('op', '('):
         p.name()
@@ -563,7 +564,11 @@ def _parse_fk(p: _P, t: Table):
     ref = p.name()
     refcols = p.col_list()
     acts = _skip_fk_actions(p)
-    t.fks.append({'columns': cols, 'ref_table': ref, 'ref_columns': refcols, 'on': acts})
+    # InnoDB names an unnamed foreign key <table>_ibfk_<n>
+    n = getattr(t, '_fk_counter', 0) + 1
+    t._fk_counter = n
+    t.fks.append({'name': cname or f'{t.name}_ibfk_{n}', 'auto_name': cname is None, 'columns': cols, 'ref_table': ref,
+                  'ref_columns': refcols, 'on': acts})
 
 
 def _parse_table_constraint(p: _P, t: Table) -> bool:
@@ -589,7 +594,7 @@ def _parse_table_constraint(p: _P, t: Table) -> bool:
         t.uniques[name or cols[0]] = cols
         return True
     if p.kw('FOREIGN', 'KEY'):
-        _parse_fk(p, t)
+        _parse_fk(p, t, cname)
         return True
     if p.kw('FULLTEXT'):
         p.kw('KEY') or p.kw('INDEX')
@@ -691,6 +696,13 @@ class SchemaBuilder:
         del self.tables[a]
         t.name = b
         self.tables[b] = t
+        for fk in t.fks:      # InnoDB renames auto-generated constraint names with the table
+            if fk.get('auto_name') and fk['name'].startswith(a + '_ibfk_'):
+                fk['name'] = b + fk['name'][len(a):]
+        for o in self.tables.values():
+            for fk in o.fks:
+                if fk['ref_table'] == a:
+                    fk['ref_table'] = b
 
     def create_table(self, stmt: str, where: str, temporary=False):
         toks = _tokens(stmt)
@@ -773,7 +785,11 @@ class SchemaBuilder:
             elif p.kw('DROP', 'PRIMARY', 'KEY'):
                 t.pk = None
             elif p.kw('DROP', 'FOREIGN', 'KEY'):
-                p.name()
+                n = p.name()
+                before = len(t.fks)
+                t.fks = [fk for fk in t.fks if fk['name'] != n]
+                if len(t.fks) == before:
+                    self.notes.append(f'{where}: DROP FOREIGN KEY {n}: no such constraint recorded on {t.name}')
             elif p.kw('DROP', 'INDEX') or p.kw('DROP', 'KEY'):
                 n = p.name()
                 t.uniques.pop(n, None)
@@ -787,6 +803,9 @@ class SchemaBuilder:
                 if c is None:
                     p.fail(f'DROP COLUMN of unknown column {n}')
                 t.columns.remove(c)
+                # a column cannot be dropped while a foreign key uses it: the constraint must have been dropped before
+                # (058-rm-resource-foreign-keys.py does so by a name looked up at run time)
+                t.fks = [fk for fk in t.fks if n not in fk['columns']]
                 for k in list(t.uniques):
                     if n in t.uniques[k]:
                         t.uniques[k] = [x for x in t.uniques[k] if x != n]
@@ -849,6 +868,8 @@ class SchemaBuilder:
 
     @staticmethod
     def _rename_col_in_keys(t: Table, a: str, b: str):
+        for fk in t.fks:
+            fk['columns'] = [b if x == a else x for x in fk['columns']]
         if t.pk:
             t.pk = [b if x == a else x for x in t.pk]
         for d in (t.uniques, t.indexes):
